@@ -20,7 +20,12 @@ META = {
                   'any depth, on either side): compatibleC_as_described (the verdict is the one of the kinds they are described as), '
                   'compatibleC_complete, compatibleC_sound_partial, compatible_with_own_description (a datatype and the type rebuilt from its '
                   'description are compatible both ways), copyC_equiv (the copy validates like the original, LimitsType order test included), '
-                  'rebuildC_equiv_partial.  Commands: compatibleCmd_reduces / compatibleCmd_complete.  Users of compatible(): '
+                  'rebuildC_equiv_partial.  Scaled limits: scaled_description_exact / _only_if (the integers exported as min / max denote the '
+                  'limits exactly when the limits are grid aligned, wherever the float quotient limit/scale lands), rebuild_snaps / copy_snaps '
+                  '(for EVERY well-formed tree the description is a fixed point of the round trip and the rebuilt type / the copy is the tree '
+                  'with every scaled limit moved to its grid value; hypothesis GridStable), snapLimits_aligned.  '
+                  'Commands: compatibleCmd_reduces / compatibleCmd_complete, command_rebuild_equiv (export_datatype / '
+                  "DATATYPES['command'] / copy of a CommandType).  Users of compatible(): "
                   'proxy_own_description_silent, proxy_own_command_silent (the proxy check logs nothing against the own description), '
                   'writable_same_datatype_ok.  Table facts of DATATYPES / exported properties by decide.  Models '
                   'tied to frappy/datatypes.py, frappy/proxy.py (_check_descriptive_data) and frappy/modules.py (Writable.__init__) by a '
@@ -43,6 +48,9 @@ META = {
         '(FrappyProofs/Lemmas/CompatLawsRat.lean)',
         'CompatLaws.grid_ge_lt / grid_le_lt (a number whose grid value is >= m lies above m - scale, dually) are false for binary64 when '
         'scale < ulp(limit); assumed for the limits drawn (|grid index| <= 2^31)',
+        'GridStable (hypothesis of rebuild_snaps / copy_snaps: round((k*scale)/scale) = k) for binary64 within |k| < 2^51; proved for Rat '
+        '(rat_gridStable).  CompatLaws and GridStable are re-tested with the Float instance on 4 000 / 60 000 tuples of the region drawn in '
+        'every run (driver verb laws; a test, not a proof)',
         'FrappyDrive/FloatInst.lean: Float instance of FloatOps',
     ],
     'modelled_not_verified': [
@@ -58,12 +66,17 @@ META = {
         'the warnings); the remote datatypes are rebuilt from their description by the real get_datatype',
     ],
     'assumptions': ['generalConfig.lazy_number_validation is False (default)',
-                    'scaled integers have grid-aligned limits (quantifier of the property)',
+                    'scaled integers have grid-aligned limits in the strict sense limit == index * scale as floats (quantifier of the '
+                    'property; the Lean monitor judgeRebuilt tests it with exportableB); a limit written as a decimal literal that is not '
+                    'such a product (0.7 with scale 0.1: 7 * 0.1 = 0.7000000000000001) is outside: the round trip moves it by one ulp '
+                    '(remark in ScaledInteger.checkProperties) — for such trees only the description is judged and model == code is compared',
                     'relative_resolution < 1 on the second type of a pair (hypothesis ResLeOne of compatible_sound_partial; recorded finding otherwise)',
                     'datainfo given to get_datatype: enum values are JSON integers, scale is a JSON number, optional is a list',
                     'the member of a LimitsType is a number kind (FloatRange, IntRange, ScaledInteger); TextType as constructed '
                     '(minchars 0, not UTF-8)',
-                    'CommandType: argument and result are datatypes of the modelled kinds or None; copy / rebuild of a CommandType itself are not modelled'],
+                    'CommandType: argument and result are datatypes of the modelled kinds or None (derived classes in the compatible() '
+                    'stream, the ten kinds in the rebuild / copy stream); a command as the argument of a command and the old syntax '
+                    "['command', {...}] are not modelled"],
 }
 
 FMAX = sys.float_info.max
@@ -1736,11 +1749,12 @@ def shrink(ctx, case, clause):
 def run(ctx):
     res = Result()
     res.rule = ('datatype trees built by the constructors (units with $, format strings, enum names, optional members, client marks, '
-                'grid-aligned scaled limits): export_datatype -> json round trip -> get_datatype -> export_datatype, probes from the '
+                'grid-aligned scaled limits whose float quotient limit/scale is exact / a hair below / a hair above the grid index; 12 % with limits off the grid, '
+                'description only): export_datatype -> json round trip -> get_datatype -> export_datatype, probes at every numeric limit and from the '
                 'boundary catalogues through both types (import_value / validate(previous)); copy() with the id()-walk of all mutable '
                 'objects, then mutation of every object of the copy; datainfo with unknown / dropped / null / wrong-kind keys through '
                 'get_datatype; ordered pairs derived per kind (wider, equal, narrower, shifted, cross kind, random) through compatible() '
-                'with witnesses of the first value set through the real validate of the second; derived classes (TextType, LimitsType, StatusType) planted at any depth in all three streams plus a systematic catalogue of every derived class against its plain class; pairs of commands; the proxy consistency check and Writable.__init__ on related datatypes.  Non-trivial = a tree with a container '
+                'with witnesses of the first value set through the real validate of the second; derived classes (TextType, LimitsType, StatusType) planted at any depth in all three streams plus a systematic catalogue of every derived class against its plain class; pairs of commands; commands through export_datatype / get_datatype / copy; malformed command descriptions; re-test of the float laws; the proxy consistency check and Writable.__init__ on related datatypes.  Non-trivial = a tree with a container '
                 'or a non-default property; a pair whose verdict is pass, or which is refused below the root or by a limit')
     rng = ctx.rng
     big = ctx.tier == 'thorough' or ctx.escalated
